@@ -30,7 +30,7 @@ def cases(draw):
     ops = list(hist["ops"])
     # a final state change of a drawn kind (so that every handler kind ends a history now and then)
     nid = draw(st.sampled_from(gen.NODE_POOL[:3]))
-    tail_kind = draw(st.sampled_from(["idreq", "node", "child", "set", "set_rebooting", "battery", "sketch_name", "sketch_version", "heartbeat", "none"]))
+    tail_kind = draw(st.sampled_from(["idreq", "node", "child", "set", "set_rebooting", "confirm_desired", "battery", "sketch_name", "sketch_version", "heartbeat", "none"]))
     version = hist["version"]
     tail = {
         "idreq": "255;255;3;0;3;",
@@ -38,6 +38,7 @@ def cases(draw):
         "child": f"{nid};{draw(st.integers(0, 5))};0;0;6;late",
         "set": f"{nid};0;1;0;0;{draw(st.integers(-40, 40))}",
         "set_rebooting": f"{nid};0;1;0;0;{draw(st.integers(41, 80))}",  # a value reported while a firmware update is pending
+        "confirm_desired": f"{nid};0;1;0;2;1",  # a sleeping node reports exactly the value the controller asked for
         "battery": f"{nid};255;3;0;0;{draw(st.integers(0, 100))}",
         "sketch_name": f"{nid};255;3;0;11;sk{draw(st.integers(0, 99))}",
         "sketch_version": f"{nid};255;3;0;12;{draw(st.integers(0, 9))}.{draw(st.integers(0, 9))}",
@@ -47,6 +48,21 @@ def cases(draw):
     n_ticks = draw(st.integers(0, 4))
     for _ in range(n_ticks):
         ops.insert(draw(st.integers(0, len(ops))), {"op": "tick"})
+    if tail_kind == "confirm_desired":
+        from vf.ref import tables as T
+
+        wake = T.wake_sub(version)
+        ops.append({"op": "line", "text": f"{nid};255;0;0;17;2.0"})
+        ops.append({"op": "line", "text": f"{nid};0;0;0;3;relay"})
+        ops.append({"op": "line", "text": f"{nid};0;1;0;2;0"})
+        if wake is not None:
+            ops.append({"op": "line", "text": f"{nid};255;3;0;{wake};5"})
+        ops.append({"op": "tick"})
+        ops.append({"op": "set", "n": nid, "c": 0, "vt": 2, "value": "1"})
+        if wake is not None:
+            ops.append({"op": "line", "text": f"{nid};255;3;0;{wake};6"})
+        if version == "2.2":
+            ops.append({"op": "tick"})  # (the 2.2 wake-up announcement is no report: the file is up to date again)
     if tail_kind == "set_rebooting":
         ops.append({"op": "line", "text": f"{nid};255;0;0;17;2.0"})
         ops.append({"op": "line", "text": f"{nid};0;0;0;6;t"})
@@ -56,7 +72,7 @@ def cases(draw):
             ops.append({"op": "tick"})
         ops.append({"op": "line", "text": tail})
     case = {"version": version, "ext": draw(st.sampled_from(["json", "pickle"])), "ops": ops, "tail": tail_kind}
-    case["shape"] = draw(st.sampled_from(["abs", "abs", "bare", "dot", "sub"]))  # how the application names the file
+    case["shape"] = draw(st.sampled_from(["abs", "abs", "bare", "dot", "sub", "dotdir", "bakdir"]))  # how the application names the file
     if draw(st.integers(0, 3)) == 0:
         # a file from a previous run exists, and the first messages of this run are handled BEFORE the application
         # calls start_persistence() (the transport is started first); now and then it calls it a second time
@@ -96,6 +112,11 @@ def _check_case(case, stats=None):
         elif shape == "sub":
             os.chdir(os.path.dirname(tmp))
             given = f"{os.path.basename(tmp)}/net.{case['ext']}"
+        elif shape in ("dotdir", "bakdir"):
+            # a directory whose own name has a dot / '.bak' in it (conf.d, ~/.config, a copied directory)
+            sub = os.path.join(tmp, "conf.d" if shape == "dotdir" else "gateway.bak")
+            os.makedirs(sub)
+            path = given = os.path.join(sub, f"net.{case['ext']}")
         if case.get("previous"):
             life0 = persist.Lifetime(fake, version, given)
             apply_ops(life0.driver, [{"op": "line", "text": t} for t in case["previous"]])
